@@ -59,6 +59,9 @@ func (e *Engine) call(fr *frame, st *State, in *ssa.Call) *State {
 		callees = []*ssa.Function{f}
 		args = c.Args
 	} else {
+		if e.DynCallHook != nil && e.DynCallHook(e, st, in) {
+			return st
+		}
 		callees = e.callees[in]
 		args = c.Args
 		if len(callees) == 0 {
